@@ -421,7 +421,9 @@ func (n1 numDatum) equalTo(n2 Datum) error {
 }
 
 func (n numDatum) Boolean(context string) bool {
-	if n.num != 0 {
+	// XPATH 1.0 section 4.3: a number is true if and only if it is neither
+	// positive or negative zero nor NaN.
+	if n.num != 0 && !math.IsNaN(n.num) {
 		return true
 	}
 
